@@ -191,7 +191,7 @@ func runC06(c *core.Ctx) {
 			decoy := decoys[pt[1]].s
 			sp := &harness.FixedSession{S: &decoy}
 			var idpKey string
-			idp := harness.NewIDP("idp1", harness.SPRegistry{md.EntityID: md}, nil)
+			idp := harness.ReuseIDP("idp1", harness.SPRegistry{md.EntityID: md}, nil) // one IdentityProvider value for the whole worker, reconfigured per case
 			switch idpConfs[pt[3]] {
 			case "key-rsa":
 				idpKey = "idp1"
